@@ -117,12 +117,13 @@ def nthAt (n : Nat) (kind : SyntaxKind) : G Bool := do
 /-- `Parser::at` (named `at'` because `at` is a Lean keyword) -/
 def at' (kind : SyntaxKind) : G Bool := nthAt 0 kind
 
-/-- `TokenSet`: a `u128` bit set.  `mask(kind) = 1u128 << (kind as usize)` overflows for
-discriminants ≥ 128: a panic in builds with overflow checks (dev/test profile). -/
+/-- `TokenSet`: a `u128` bit set.  `mask(kind)` is `1u128 << kind` for discriminants below 128 and
+`0` otherwise (since the repair of finding F04; before, the shift overflowed): kinds ≥ 128 are never
+members. -/
 abbrev TokenSet := List SyntaxKind
 
 def TokenSet.containsG (ts : TokenSet) (kind : SyntaxKind) : G Bool :=
-  if kind.toNat ≥ 128 then panic "TokenSet::mask shift overflow" else return ts.contains kind
+  return (decide (kind.toNat < 128) && ts.contains kind)
 
 /-- `Parser::at_ts` -/
 def atTs (ts : TokenSet) : G Bool := do ts.containsG (← current)
